@@ -200,21 +200,68 @@
     }
     pub uninterp spec fn vec_blanket_dec<T, E: Encoding<T>>(b: Seq<u8>) -> Option<(Vec<T>, int)>;
 
-    // ------------------------------------------------------------------ text (external crates: yore CP437, hex) — trusted, T3
-    pub uninterp spec fn cp437_enc(v: &String) -> Seq<u8>;
-    pub uninterp spec fn cp437_dec(b: Seq<u8>) -> String;
+    // ------------------------------------------------------------------ text (external crates: yore CP437, hex)
+    // The code-page table and the hex digits themselves are the crates' business (T3, uninterpreted); what IS verified is how
+    // zvt_builder uses them: which calls, on which bytes, what is trimmed, what is returned as remainder.
+    /// the String with a given text (a Rust String is determined by its text)
+    pub uninterp spec fn str_of(t: Seq<char>) -> String;
+    pub uninterp spec fn cp437_encodable(t: Seq<char>) -> bool;
+    pub uninterp spec fn cp437_raw_enc(t: Seq<char>) -> Seq<u8>;
+    pub uninterp spec fn cp437_raw_dec(b: Seq<u8>) -> Seq<char>;
+    pub uninterp spec fn trim_end_spec(t: Seq<char>, c: char) -> Seq<char>;
+    /// yore::code_pages::CP437
+    pub struct CodePage;
+    pub const CP437: CodePage = CodePage;
+    #[verifier::external_body]
+    pub struct VCowBytes { _p: u8 }
+    #[verifier::external_body]
+    pub struct VCowStr { _p: u8 }
+    #[verifier::external_body]
+    pub struct VStrRef { _p: u8 }
+    #[derive(Debug)]
+    pub struct VEncodeError;
+    #[derive(Debug)]
+    pub struct VNever;
+    impl CodePage {
+        #[verifier::external_body]
+        pub fn encode(&self, s: &String) -> (r: core::result::Result<VCowBytes, VEncodeError>)
+            ensures r is Ok <==> cp437_encodable(s@), r matches Ok(b) ==> b@ == cp437_raw_enc(s@),
+        { unimplemented!() }
+        #[verifier::external_body]
+        pub fn decode(&self, b: &[u8]) -> (r: VCowStr) ensures r@ == cp437_raw_dec(b@) { unimplemented!() }
+    }
+    impl VCowBytes {
+        pub uninterp spec fn view(&self) -> Seq<u8>;
+        /// `Cow<[u8]>` -> `Vec<u8>` (never fails)
+        #[verifier::external_body]
+        pub fn try_into(self) -> (r: core::result::Result<Vec<u8>, VNever>) ensures r matches Ok(v) && v@ == self@ { unimplemented!() }
+    }
+    impl VCowStr {
+        pub uninterp spec fn view(&self) -> Seq<char>;
+        #[verifier::external_body]
+        pub fn trim_end_matches(&self, c: char) -> (r: VStrRef) ensures r@ == trim_end_spec(self@, c) { unimplemented!() }
+        #[verifier::external_body]
+        pub fn to_string(&self) -> (r: String) ensures r == str_of(self@), r@ == self@ { unimplemented!() }
+    }
+    impl VStrRef {
+        pub uninterp spec fn view(&self) -> Seq<char>;
+        #[verifier::external_body]
+        pub fn to_string(&self) -> (r: String) ensures r == str_of(self@), r@ == self@ { unimplemented!() }
+    }
+    /// whole field as CP437 text, trailing NUL padding removed
+    pub open spec fn cp437_dec(b: Seq<u8>) -> String { str_of(trim_end_spec(cp437_raw_dec(b), 0u8 as char)) }
     /// encodable in CP437 and not ending in NUL
     pub uninterp spec fn cp437_canon(v: &String) -> bool;
     impl Encoding<String> for Default {
-        open spec fn enc_ok(v: &String) -> bool { cp437_canon(v) }
+        open spec fn enc_ok(v: &String) -> bool { cp437_encodable(v@) }
         open spec fn canon(v: &String) -> bool { cp437_canon(v) }
-        open spec fn spec_enc(v: &String) -> Seq<u8> { cp437_enc(v) }
+        open spec fn spec_enc(v: &String) -> Seq<u8> { cp437_raw_enc(v@) }
         /// total; consumes the entire input
         open spec fn spec_dec(b: Seq<u8>) -> Option<(String, int)> { Some((cp437_dec(b), b.len() as int)) }
         open spec fn progresses() -> bool { false }
-        //@ fn src:zvt_builder/src/encoding.rs | impl Encoding<String> for Default | encode | ext props=C17,C03
+        //@ fn src:zvt_builder/src/encoding.rs | impl Encoding<String> for Default | encode | props=C17,C03 $M
         //@ end
-        //@ fn src:zvt_builder/src/encoding.rs | impl Encoding<String> for Default | decode | ext props=C02,C17
+        //@ fn src:zvt_builder/src/encoding.rs | impl Encoding<String> for Default | decode | props=C02,C17 $M
         //@ end
         open spec fn self_delimiting() -> bool { false }
         open spec fn dec_rel(b: Seq<u8>, v: &String, k: int) -> bool { true }
@@ -223,23 +270,37 @@
         open spec fn functional() -> bool { true }
         proof fn law_dec_bounds(b: Seq<u8>) {}
         proof fn law_dec_frame(b: Seq<u8>, s: Seq<u8>) {}
+        /// T3: the code page maps back what it maps forth, and trimming does not touch text that does not end in NUL
         #[verifier::external_body]
         proof fn law_inverse(v: &String) {}
     }
     //@ item src:zvt_builder/src/encoding.rs | struct Hex
-    pub uninterp spec fn hex_enc(v: &String) -> Seq<u8>;
-    pub uninterp spec fn hex_dec(b: Seq<u8>) -> String;
+    pub uninterp spec fn hex_valid(digits: Seq<u8>) -> bool;
+    pub uninterp spec fn hex_raw_dec(digits: Seq<u8>) -> Seq<u8>;
+    pub uninterp spec fn hex_text(b: Seq<u8>) -> Seq<char>;
+    #[derive(Debug)]
+    pub struct VHexError;
+    /// `<Vec<u8>>::from_hex(digits)` (N9)
+    #[verifier::external_body]
+    pub fn v_from_hex(digits: &[u8]) -> (r: core::result::Result<Vec<u8>, VHexError>)
+        ensures r is Ok <==> hex_valid(digits@), r matches Ok(v) ==> v@ == hex_raw_dec(digits@),
+    { unimplemented!() }
+    /// `bytes.encode_hex::<String>()` (N9)
+    #[verifier::external_body]
+    pub fn v_encode_hex(b: &[u8]) -> (r: String) ensures r == str_of(hex_text(b@)), r@ == hex_text(b@) { unimplemented!() }
+    pub open spec fn hex_enc(v: &String) -> Seq<u8> { hex_raw_dec(utf8_enc(v)) }
+    pub open spec fn hex_dec(b: Seq<u8>) -> String { str_of(hex_text(b)) }
     /// lower-case hex digits, even length
     pub uninterp spec fn hex_canon(v: &String) -> bool;
     impl Encoding<String> for Hex {
-        open spec fn enc_ok(v: &String) -> bool { hex_canon(v) }
+        open spec fn enc_ok(v: &String) -> bool { hex_valid(utf8_enc(v)) }
         open spec fn canon(v: &String) -> bool { hex_canon(v) }
         open spec fn spec_enc(v: &String) -> Seq<u8> { hex_enc(v) }
         open spec fn spec_dec(b: Seq<u8>) -> Option<(String, int)> { Some((hex_dec(b), b.len() as int)) }
         open spec fn progresses() -> bool { false }
-        //@ fn src:zvt_builder/src/encoding.rs | impl Encoding<String> for Hex | encode | ext props=C17,C03
+        //@ fn src:zvt_builder/src/encoding.rs | impl Encoding<String> for Hex | encode | props=C17,C03 $M
         //@ end
-        //@ fn src:zvt_builder/src/encoding.rs | impl Encoding<String> for Hex | decode | ext props=C02,C17
+        //@ fn src:zvt_builder/src/encoding.rs | impl Encoding<String> for Hex | decode | props=C02,C17 $M
         //@ end
         open spec fn self_delimiting() -> bool { false }
         open spec fn dec_rel(b: Seq<u8>, v: &String, k: int) -> bool { true }
@@ -248,6 +309,7 @@
         open spec fn functional() -> bool { true }
         proof fn law_dec_bounds(b: Seq<u8>) {}
         proof fn law_dec_frame(b: Seq<u8>, s: Seq<u8>) {}
+        /// T3: hex digits of bytes read back as those bytes
         #[verifier::external_body]
         proof fn law_inverse(v: &String) {}
     }
